@@ -117,7 +117,8 @@ theorem extractAndVerify_ok_iff' (verify : VerifyFn) (sum : SumFn) (m : SignedMs
     extractAndVerify verify sum m ctx = .ok (pk, id) ↔
       m.data ≠ [] ∧ m.fromPeerId ≠ [] ∧ m.signature.validate = true ∧
       idB58Decode m.fromPeerId = some id ∧ extractPublicKey id = some pk ∧
-      verifyWithPublic verify sum m.signature ctx pk m.data = .good := by
+      verifyWithPublic verify sum m.signature ctx pk m.data = .good ∧
+      idFromPublicKey pk = id ∧ idB58Encode id = m.fromPeerId := by
   unfold extractAndVerify
   constructor
   · intro h
@@ -139,12 +140,18 @@ theorem extractAndVerify_ok_iff' (verify : VerifyFn) (sum : SumFn) (m : SignedMs
     · cases h
     rename_i pk0 hpk
     split at h
+    · cases h
+    rename_i hcan
+    split at h
     · rename_i hgood
       cases h
+      simp only [matchesPublicKey, Bool.or_eq_true, Bool.not_eq_true', decide_eq_false_iff_not,
+        bne_iff_ne, ne_eq, not_or, Decidable.not_not] at hcan
       refine ⟨ne_nil_of_isEmpty_eq_false (by simpa using hd),
-        ne_nil_of_isEmpty_eq_false (by simpa using hp), by simpa using hval, hid, hpk, hgood⟩
+        ne_nil_of_isEmpty_eq_false (by simpa using hp), by simpa using hval, hid, hpk, hgood,
+        hcan.1, hcan.2⟩
     · cases h
-  · rintro ⟨hd, hp, hval, hid, hpk, hgood⟩
+  · rintro ⟨hd, hp, hval, hid, hpk, hgood, hc1, hc2⟩
     have hidne : id.isEmpty = false := by
       apply isEmpty_eq_false_of_ne_nil
       intro e
@@ -152,6 +159,7 @@ theorem extractAndVerify_ok_iff' (verify : VerifyFn) (sum : SumFn) (m : SignedMs
       cases hpk
     rw [isEmpty_eq_false_of_ne_nil hd, isEmpty_eq_false_of_ne_nil hp, hval]
     simp only [Bool.false_eq_true, if_false, Bool.not_true, hid, hidne, hpk, hgood]
+    simp [matchesPublicKey, hc1, hc2]
 
 end Sign
 end Bifrost
